@@ -212,6 +212,8 @@ def run_cqd(case):
 def run_case(case):
     if case.get("profile") == "cqd":
         return run_cqd(case)
+    if case.get("kind") == "scale":
+        return archlib.run_scale(case, PROPS)
     return archdispatch.run_case(case, PROPS)
 
 
@@ -224,6 +226,7 @@ def run(ctx):
     # remaps (stats of the rebuilt contents) and the ProximityArchive cells = len convention
     ctx.explore("sliding-remaps", archdispatch.gen_sliding, run_case, ctx.n(70, 6000), time_budget=budget)
     ctx.explore("proximity", archdispatch.gen_prox(), run_case, ctx.n(70, 6000), time_budget=budget)
+    ctx.explore("scale", archlib.gen_scale, run_case, ctx.n(3, 120), time_budget=10 if ctx.quick else 100)
 
 
 def replay(ctx, case):
